@@ -5,6 +5,7 @@ package main
 import (
 	"fmt"
 	"go/token"
+	"go/types"
 	"strings"
 
 	"golang.org/x/tools/go/ssa"
@@ -51,6 +52,28 @@ func (ex *Exec) assertCalls(calleeName string, names []string, args []Val, p tok
 		}
 		for j := range args {
 			env.vars[fmt.Sprintf("arg%d", j)] = args[j]
+		}
+		// a non-pointer value boxed into an interface argument (e.g. the struct handed to json.Marshal) is
+		// readable as <param>_val / argN_val
+		if cc := ex.curCall; cc != nil && !cc.IsInvoke() && len(cc.Args) == len(args) {
+			for j, a := range cc.Args {
+				mi, ok := a.(*ssa.MakeInterface)
+				if !ok {
+					continue
+				}
+				switch mi.X.Type().Underlying().(type) {
+				case *types.Pointer, *types.Map, *types.Chan, *types.Signature, *types.Interface:
+					continue
+				}
+				bv := ex.val(mi.X)
+				if bv.Loc != nil {
+					continue
+				}
+				env.vars[fmt.Sprintf("arg%d_val", j)] = bv
+				if j < len(names) && names[j] != "" && names[j] != "_" {
+					env.vars[names[j]+"_val"] = bv
+				}
+			}
 		}
 		g := root.evalBool(env, cl)
 		root.assertN++
